@@ -32,6 +32,8 @@ CONSTANTS NP,          \* number of pools (SessionNum)
           MaxInj,      \* number of injected stale/foreign HR or Ack messages
           AllowNew,    \* the new server may start
           AllowExit,   \* the old server may exit
+          AllowNewExit,\* the new server may stop accepting (and a new one may start again)
+          AllowGone,   \* the client end of a session of the old server may be closed without the server having noticed yet
           AllowClose,  \* SessionManager.Close may be called
           TimerFIFO, Urgent,
           Prune,       \* set of known-finding classes whose executions are not explored further
@@ -52,23 +54,28 @@ VARIABLES
   tq,                                              \* running checkers in start order, over {"L","M"}
   dies, injs,
   kf,                                              \* ghost: known-finding classes this behaviour has entered
-  idAtClose                                        \* ghost: nextId when Close returned
-vars == <<sess,nextId,s2c,c2s,lstate,lepoch,ack,hrCalls,oldUp,newUp,mstate,mepoch,cur,reserve,closed,wpc,wsess,tq,dies,injs,kf,idAtClose>>
+  idAtClose,                                       \* ghost: nextId when Close returned
+  gone                                             \* sessions whose client end is closed while the server has not handled the hang-up yet
+vars == <<sess,nextId,s2c,c2s,lstate,lepoch,ack,hrCalls,oldUp,newUp,mstate,mepoch,cur,reserve,closed,wpc,wsess,tq,dies,injs,kf,idAtClose,gone>>
 
 Live == {i \in 1..(nextId-1) : sess[i].alive}
 Blank == [epoch |-> 0, srv |-> "old", alive |-> FALSE, sstate |-> "def", pool |-> 0]
 Kill(S) == [i \in SessIds |-> IF i \in S THEN [sess[i] EXCEPT !.alive = FALSE] ELSE sess[i]]
 Without(q, x) == SelectSeq(q, LAMBDA y : y # x)
-Connect == IF newUp THEN "new" ELSE IF oldUp THEN "old" ELSE "none"
+\* newUp: "no" (not started) -> "up" -> "gone" (it bound the listen path and is not accepting any more: connects are refused
+\* although the old server is still there) -> "up2" (a new server process again)
+NewAccepts == newUp \in {"up", "up2"}
+Connect == IF NewAccepts THEN "new" ELSE IF newUp = "gone" THEN "none" ELSE IF oldUp THEN "old" ELSE "none"
+Sleeping(p) == wpc[p] \in {"sleep", "retry"}     \* "retry": at least one reconnect attempt of this loss has failed
 ReserveSet == {reserve[q] : q \in Pools} \ {NoSess}
 
 Init == /\ nextId = NP + 1
         /\ sess = [i \in SessIds |-> IF i <= NP THEN [epoch |-> 0, srv |-> "old", alive |-> TRUE, sstate |-> "def", pool |-> i] ELSE Blank]
         /\ s2c = [i \in SessIds |-> <<>>] /\ c2s = [i \in SessIds |-> <<>>]
-        /\ lstate = "def" /\ lepoch = 0 /\ ack = 0 /\ hrCalls = 0 /\ oldUp = TRUE /\ newUp = FALSE
+        /\ lstate = "def" /\ lepoch = 0 /\ ack = 0 /\ hrCalls = 0 /\ oldUp = TRUE /\ newUp = "no"
         /\ mstate = "def" /\ mepoch = 0 /\ cur = [p \in Pools |-> p] /\ reserve = [p \in Pools |-> NoSess] /\ closed = "no"
         /\ wpc = [p \in Pools |-> "watch"] /\ wsess = [p \in Pools |-> p]
-        /\ tq = <<>> /\ dies = 0 /\ injs = 0 /\ kf = {} /\ idAtClose = 0
+        /\ tq = <<>> /\ dies = 0 /\ injs = 0 /\ kf = {} /\ idAtClose = 0 /\ gone = {}
 
 \* ---------------- steps the real code takes on its own within one tick (see D7)
 LTickEn == lstate = "hot" /\ ack = 0
@@ -77,61 +84,87 @@ WPickEn(p) == wpc[p] = "pick" /\ mstate # "hot"
 WLostEn(p) == wpc[p] = "watch" /\ ~sess[wsess[p]].alive
 \* (a rebuild whose timer has fired goes on although Close has been called meanwhile: Close waits for the watcher and closes
 \*  the pools afterwards, so the session it stores is closed by Close)
-WRebuildEn(p) == wpc[p] = "sleep" /\ closed # "closed"
+WRebuildEn(p) == Sleeping(p) /\ closed # "closed"
                  /\ (sess[cur[p]].epoch # sess[wsess[p]].epoch \/ (Connect # "none" /\ nextId <= MaxSess))
-WExitEn(p) == closed = "closing" /\ (wpc[p] \in {"watch", "sleep"} \/ (wpc[p] = "pick" /\ mstate # "hot"))
+\* a reconnect attempt fails (nobody accepts on the path): the loop sleeps another interval and tries again
+WRetryEn(p) == wpc[p] = "sleep" /\ closed # "closed" /\ sess[cur[p]].epoch = sess[wsess[p]].epoch /\ Connect = "none"
+WExitEn(p) == closed = "closing" /\ (wpc[p] \in {"watch", "sleep", "retry"} \/ (wpc[p] = "pick" /\ mstate # "hot"))
 CloseFinEn == closed = "closing" /\ \A p \in Pools : wpc[p] = "exit"
-Quiet == ~Urgent \/ ~(LTickEn \/ MDoneEn \/ CloseFinEn \/ \E p \in Pools : WPickEn(p) \/ WLostEn(p) \/ WRebuildEn(p) \/ WExitEn(p))
+Quiet == ~Urgent \/ ~(LTickEn \/ MDoneEn \/ CloseFinEn \/ \E p \in Pools : WPickEn(p) \/ WLostEn(p) \/ WRebuildEn(p) \/ WRetryEn(p) \/ WExitEn(p))
 
 \* ---------------- environment
-NewServerStarts == /\ Quiet /\ AllowNew /\ ~newUp /\ newUp' = TRUE
-                   /\ UNCHANGED <<sess,nextId,s2c,c2s,lstate,lepoch,ack,hrCalls,oldUp,mstate,mepoch,cur,reserve,closed,wpc,wsess,tq,dies,injs,kf,idAtClose>>
-OldServerExits == /\ Quiet /\ AllowExit /\ oldUp /\ lstate # "hot"
+NewServerStarts == /\ Quiet /\ AllowNew /\ newUp \in {"no", "gone"} /\ newUp' = (IF newUp = "no" THEN "up" ELSE "up2")
+                   /\ UNCHANGED <<sess,nextId,s2c,c2s,lstate,lepoch,ack,hrCalls,oldUp,mstate,mepoch,cur,reserve,closed,wpc,wsess,tq,dies,injs,kf,idAtClose,gone>>
+\* the new server stops accepting (crash, or not ready yet after binding the path): its sessions are lost, connects are refused
+NewServerExits == /\ Quiet /\ AllowNewExit /\ newUp = "up" /\ newUp' = "gone"
+                  /\ sess' = Kill({i \in Live : sess[i].srv = "new"})
+                  /\ UNCHANGED <<nextId,s2c,c2s,lstate,lepoch,ack,hrCalls,oldUp,mstate,mepoch,cur,reserve,closed,wpc,wsess,tq,dies,injs,kf,idAtClose,gone>>
+OldServerExits == /\ Quiet /\ AllowExit /\ oldUp /\ lstate \notin {"hot", "stuck"}
                   /\ oldUp' = FALSE
                   /\ sess' = Kill({i \in Live : sess[i].srv = "old"})
-                  /\ UNCHANGED <<nextId,s2c,c2s,lstate,lepoch,ack,hrCalls,newUp,mstate,mepoch,cur,reserve,closed,wpc,wsess,tq,dies,injs,kf,idAtClose>>
+                  /\ UNCHANGED <<nextId,s2c,c2s,lstate,lepoch,ack,hrCalls,newUp,mstate,mepoch,cur,reserve,closed,wpc,wsess,tq,dies,injs,kf,idAtClose,gone>>
 \* a single session is lost (its server end is closed)
 SessDies(i) == /\ Quiet /\ dies < MaxDie /\ i \in Live /\ dies' = dies + 1
                /\ sess' = Kill({i})
-               /\ UNCHANGED <<nextId,s2c,c2s,lstate,lepoch,ack,hrCalls,oldUp,newUp,mstate,mepoch,cur,reserve,closed,wpc,wsess,tq,injs,kf,idAtClose>>
+               /\ UNCHANGED <<nextId,s2c,c2s,lstate,lepoch,ack,hrCalls,oldUp,newUp,mstate,mepoch,cur,reserve,closed,wpc,wsess,tq,injs,kf,idAtClose,gone>>
 \* a hot-restart event of an epoch the listener is not announcing reaches the client on session i (stale or foreign)
 \* (an epoch that the listener may still announce later is excluded: that would be the same epoch twice, see D4)
 InjectHR(i, e) == /\ Quiet /\ injs < MaxInj /\ i \in Live /\ e # lepoch /\ (e < lepoch \/ hrCalls = MaxHR) /\ injs' = injs + 1
                   /\ s2c' = [s2c EXCEPT ![i] = Append(@, e)]
-                  /\ UNCHANGED <<sess,nextId,c2s,lstate,lepoch,ack,hrCalls,oldUp,newUp,mstate,mepoch,cur,reserve,closed,wpc,wsess,tq,dies,kf,idAtClose>>
+                  /\ UNCHANGED <<sess,nextId,c2s,lstate,lepoch,ack,hrCalls,oldUp,newUp,mstate,mepoch,cur,reserve,closed,wpc,wsess,tq,dies,kf,idAtClose,gone>>
 \* an acknowledgement of an epoch the listener is not announcing reaches the old server on session i
 InjectAck(i, e) == /\ Quiet /\ injs < MaxInj /\ i \in Live /\ sess[i].srv = "old" /\ e # lepoch /\ (e < lepoch \/ hrCalls = MaxHR) /\ injs' = injs + 1
                    /\ c2s' = [c2s EXCEPT ![i] = Append(@, e)]
-                   /\ UNCHANGED <<sess,nextId,s2c,lstate,lepoch,ack,hrCalls,oldUp,newUp,mstate,mepoch,cur,reserve,closed,wpc,wsess,tq,dies,kf,idAtClose>>
+                   /\ UNCHANGED <<sess,nextId,s2c,lstate,lepoch,ack,hrCalls,oldUp,newUp,mstate,mepoch,cur,reserve,closed,wpc,wsess,tq,dies,kf,idAtClose,gone>>
 
 \* ---------------- old listener
-\* T: the sessions in Listener.sessions that are in the default state (every live one; trace validation passes the logged set)
-LHotRestartT(e, T) == /\ Quiet /\ oldUp /\ hrCalls < MaxHR /\ lstate # "hot" /\ e > lepoch
-                      /\ hrCalls' = hrCalls + 1
-                      /\ lstate' = "hot" /\ lepoch' = e /\ tq' = Append(tq, "L")
-                      /\ sess' = [i \in SessIds |-> IF i \in T THEN [sess[i] EXCEPT !.sstate = "hot"] ELSE sess[i]]
-                      /\ s2c' = [i \in SessIds |-> IF i \in T THEN Append(s2c[i], e) ELSE s2c[i]]
-                      /\ ack' = ack + Cardinality(T)
-                      /\ UNCHANGED <<nextId,c2s,oldUp,newUp,mstate,mepoch,cur,reserve,closed,wpc,wsess,dies,injs,kf,idAtClose>>
+\* T: the sessions in Listener.sessions that are in the default state (every live one; trace validation passes the logged set).
+\* G: those of them whose client end is already closed (the hang-up has not been handled yet): the write of the notification
+\* fails, writeEventData calls exitErr -> Session.Close -> sessionCallback.OnShutdown -> sessions.removeShutdownSession, which
+\* takes sessions.sessionMu -- held by this very goroutine (HotRestart holds Listener.mu and sessionMu over the loop): the
+\* listener is stuck for ever with both locks taken (lstate "stuck": in the hot-restart state, no checker, nothing that needs
+\* Listener.mu or sessionMu can run). Repaired ("hotrestart-write-deadlock" \in Fixed: the loop runs over a snapshot without
+\* sessionMu): the session is closed inside the notification, it has been counted, only the time-out ends the restart.
+LHotRestartT(e, T) ==
+    LET G == T \cap gone IN
+    /\ Quiet /\ oldUp /\ hrCalls < MaxHR /\ lstate \notin {"hot", "stuck"} /\ e > lepoch
+    /\ hrCalls' = hrCalls + 1 /\ lepoch' = e
+    /\ IF G # {} /\ "hotrestart-write-deadlock" \notin Fixed
+         THEN /\ lstate' = "stuck" /\ kf' = kf \cup {"hotrestart-write-deadlock"}
+              /\ UNCHANGED <<sess, s2c, ack, tq, gone>>
+         ELSE /\ lstate' = "hot" /\ tq' = Append(tq, "L") /\ kf' = kf
+              /\ sess' = [i \in SessIds |-> IF i \in T THEN [sess[i] EXCEPT !.sstate = "hot"] ELSE sess[i]]
+              /\ s2c' = [i \in SessIds |-> IF i \in T \ G THEN Append(s2c[i], e) ELSE s2c[i]]
+              /\ ack' = ack + Cardinality(T)
+              /\ gone' = gone \ G
+    /\ UNCHANGED <<nextId,c2s,oldUp,newUp,mstate,mepoch,cur,reserve,closed,wpc,wsess,dies,injs,idAtClose>>
 LHotRestart(e) == /\ e \in Epochs
-                  /\ LHotRestartT(e, {i \in Live : sess[i].srv = "old" /\ sess[i].sstate = "def"})
+                  /\ LHotRestartT(e, {i \in Live : sess[i].srv = "old" /\ sess[i].sstate = "def"}
+                                        \cup {i \in gone : sess[i].sstate = "def"})
+\* the client end of session i (old server) is closed; the server's event loop has not run yet
+PeerGone(i) == /\ Quiet /\ AllowGone /\ gone = {} /\ i \in Live /\ sess[i].srv = "old" /\ dies < MaxDie /\ dies' = dies + 1
+               /\ sess' = Kill({i}) /\ gone' = {i}
+               /\ UNCHANGED <<nextId,s2c,c2s,lstate,lepoch,ack,hrCalls,oldUp,newUp,mstate,mepoch,cur,reserve,closed,wpc,wsess,tq,injs,kf,idAtClose>>
+\* the server handles the hang-up: Session.Close, removeShutdownSession (needs sessionMu)
+ServerNotices(i) == /\ i \in gone /\ lstate # "stuck" /\ gone' = gone \ {i}
+                    /\ UNCHANGED <<sess,nextId,s2c,c2s,lstate,lepoch,ack,hrCalls,oldUp,newUp,mstate,mepoch,cur,reserve,closed,wpc,wsess,tq,dies,injs,kf,idAtClose>>
 \* handleHotRestartAck: checks the epoch only
-LAck(i) == /\ Quiet /\ oldUp /\ i \in Live /\ sess[i].srv = "old" /\ c2s[i] # <<>>
+LAck(i) == /\ Quiet /\ oldUp /\ lstate # "stuck" /\ i \in Live /\ sess[i].srv = "old" /\ c2s[i] # <<>>
            /\ c2s' = [c2s EXCEPT ![i] = Tail(@)]
            /\ IF Head(c2s[i]) = lepoch /\ ("late-ack" \in Fixed => (lstate = "hot" /\ sess[i].sstate = "hot"))
                 THEN /\ ack' = ack - 1 /\ sess' = [sess EXCEPT ![i].sstate = "done"]
                      /\ kf' = IF lstate # "hot" THEN kf \cup {"late-ack"} ELSE kf
                 ELSE /\ ack' = ack /\ sess' = sess /\ kf' = kf
-           /\ UNCHANGED <<nextId,s2c,lstate,lepoch,hrCalls,oldUp,newUp,mstate,mepoch,cur,reserve,closed,wpc,wsess,tq,dies,injs,idAtClose>>
+           /\ UNCHANGED <<nextId,s2c,lstate,lepoch,hrCalls,oldUp,newUp,mstate,mepoch,cur,reserve,closed,wpc,wsess,tq,dies,injs,idAtClose,gone>>
 \* checkHotRestart ticker branch that finds the count at zero
 LCheckTick == /\ LTickEn
               /\ lstate' = "done" /\ tq' = Without(tq, "L")
-              /\ UNCHANGED <<sess,nextId,s2c,c2s,lepoch,ack,hrCalls,oldUp,newUp,mstate,mepoch,cur,reserve,closed,wpc,wsess,dies,injs,kf,idAtClose>>
+              /\ UNCHANGED <<sess,nextId,s2c,c2s,lepoch,ack,hrCalls,oldUp,newUp,mstate,mepoch,cur,reserve,closed,wpc,wsess,dies,injs,kf,idAtClose,gone>>
 \* checkHotRestart time-out branch: resetState
 LTimeout == /\ Quiet /\ lstate = "hot" /\ (~TimerFIFO \/ Head(tq) = "L")
             /\ lstate' = "def" /\ ack' = 0 /\ tq' = Without(tq, "L")
             /\ sess' = [i \in SessIds |-> IF i < nextId /\ sess[i].srv = "old" THEN [sess[i] EXCEPT !.sstate = "def"] ELSE sess[i]]
-            /\ UNCHANGED <<nextId,s2c,c2s,lepoch,hrCalls,oldUp,newUp,mstate,mepoch,cur,reserve,closed,wpc,wsess,dies,injs,kf,idAtClose>>
+            /\ UNCHANGED <<nextId,s2c,c2s,lepoch,hrCalls,oldUp,newUp,mstate,mepoch,cur,reserve,closed,wpc,wsess,dies,injs,kf,idAtClose,gone>>
 
 \* ---------------- session manager: handleSessionManagerHotRestart for the event received on session i.
 \* The event is handled in a lambda posted to the dispatcher when it was read, so session i may have been closed in
@@ -162,18 +195,18 @@ MOnHR(i) == /\ Quiet /\ i < nextId /\ s2c[i] # <<>>
                                  /\ cur' = [cur EXCEPT ![p] = nextId]
                                  /\ nextId' = nextId + 1
                                  /\ sess' = [Kill(killed) EXCEPT ![nextId] = [epoch |-> e, srv |-> Connect, alive |-> TRUE, sstate |-> "def", pool |-> p]]
-            /\ UNCHANGED <<c2s,lstate,lepoch,ack,hrCalls,oldUp,newUp,closed,wpc,wsess,dies,injs,idAtClose>>
+            /\ UNCHANGED <<c2s,lstate,lepoch,ack,hrCalls,oldUp,newUp,closed,wpc,wsess,dies,injs,idAtClose,gone>>
 \* SessionManager.checkHotRestart ticker branch: every pool has been swapped, acknowledge on the old sessions
 MCheckDone == /\ MDoneEn
               /\ mstate' = "def" /\ tq' = Without(tq, "M")
               /\ c2s' = [i \in SessIds |-> IF i \in ReserveSet /\ i \in Live THEN Append(c2s[i], mepoch) ELSE c2s[i]]
-              /\ UNCHANGED <<sess,nextId,s2c,lstate,lepoch,ack,hrCalls,oldUp,newUp,mepoch,cur,reserve,closed,wpc,wsess,dies,injs,kf,idAtClose>>
+              /\ UNCHANGED <<sess,nextId,s2c,lstate,lepoch,ack,hrCalls,oldUp,newUp,mepoch,cur,reserve,closed,wpc,wsess,dies,injs,kf,idAtClose,gone>>
 \* time-out branch: back to the default state, the reserve pools are closed
 MTimeout == /\ Quiet /\ mstate = "hot" /\ (~TimerFIFO \/ Head(tq) = "M")
             /\ mstate' = "def" /\ tq' = Without(tq, "M")
             /\ sess' = Kill(ReserveSet)
             /\ reserve' = [q \in Pools |-> NoSess]
-            /\ UNCHANGED <<nextId,s2c,c2s,lstate,lepoch,ack,hrCalls,oldUp,newUp,mepoch,cur,closed,wpc,wsess,dies,injs,kf,idAtClose>>
+            /\ UNCHANGED <<nextId,s2c,c2s,lstate,lepoch,ack,hrCalls,oldUp,newUp,mepoch,cur,closed,wpc,wsess,dies,injs,kf,idAtClose,gone>>
 
 \* ---------------- watcher goroutine of pool p (SessionManager.background)
 \* loop top: not while hot; captures the pool object in sm.pools[p] and waits on the close channel of its session
@@ -181,11 +214,11 @@ WPick(p) == /\ WPickEn(p) /\ closed = "no"
             /\ wsess' = [wsess EXCEPT ![p] = cur[p]]
             /\ wpc' = [wpc EXCEPT ![p] = "watch"]
             /\ kf' = kf
-            /\ UNCHANGED <<sess,nextId,s2c,c2s,lstate,lepoch,ack,hrCalls,oldUp,newUp,mstate,mepoch,cur,reserve,closed,tq,dies,injs,idAtClose>>
+            /\ UNCHANGED <<sess,nextId,s2c,c2s,lstate,lepoch,ack,hrCalls,oldUp,newUp,mstate,mepoch,cur,reserve,closed,tq,dies,injs,idAtClose,gone>>
 \* the watched session is closed: during a hot restart go back to the loop top, otherwise close the pool and sleep
 WLost(p) == /\ WLostEn(p) /\ closed = "no"
             /\ wpc' = [wpc EXCEPT ![p] = IF mstate = "hot" THEN "pick" ELSE "sleep"]
-            /\ UNCHANGED <<sess,nextId,s2c,c2s,lstate,lepoch,ack,hrCalls,oldUp,newUp,mstate,mepoch,cur,reserve,closed,wsess,tq,dies,injs,kf,idAtClose>>
+            /\ UNCHANGED <<sess,nextId,s2c,c2s,lstate,lepoch,ack,hrCalls,oldUp,newUp,mstate,mepoch,cur,reserve,closed,wsess,tq,dies,injs,kf,idAtClose,gone>>
 \* after rebuildInterval: skip if the pool was replaced by a hot restart (epoch comparison), otherwise reconnect and
 \* store the new session into the CAPTURED pool object (which is sm.pools[p], or the reserve pool, or neither)
 WRebuild(p) == /\ WRebuildEn(p)
@@ -196,29 +229,33 @@ WRebuild(p) == /\ WRebuildEn(p)
                          /\ reserve' = [reserve EXCEPT ![p] = IF cur[p] # wsess[p] /\ reserve[p] = wsess[p] THEN nextId ELSE @]
                          /\ nextId' = nextId + 1
                          /\ wpc' = [wpc EXCEPT ![p] = "pick"]
-               /\ UNCHANGED <<s2c,c2s,lstate,lepoch,ack,hrCalls,oldUp,newUp,mstate,mepoch,closed,wsess,tq,dies,injs,kf,idAtClose>>
+               /\ UNCHANGED <<s2c,c2s,lstate,lepoch,ack,hrCalls,oldUp,newUp,mstate,mepoch,closed,wsess,tq,dies,injs,kf,idAtClose,gone>>
+WRetry(p) == /\ WRetryEn(p)
+             /\ wpc' = [wpc EXCEPT ![p] = "retry"]
+             /\ UNCHANGED <<sess,nextId,s2c,c2s,lstate,lepoch,ack,hrCalls,oldUp,newUp,mstate,mepoch,cur,reserve,closed,wsess,tq,dies,injs,kf,idAtClose,gone>>
 WExit(p) == /\ WExitEn(p)
             /\ wpc' = [wpc EXCEPT ![p] = "exit"]
-            /\ UNCHANGED <<sess,nextId,s2c,c2s,lstate,lepoch,ack,hrCalls,oldUp,newUp,mstate,mepoch,cur,reserve,closed,wsess,tq,dies,injs,kf,idAtClose>>
+            /\ UNCHANGED <<sess,nextId,s2c,c2s,lstate,lepoch,ack,hrCalls,oldUp,newUp,mstate,mepoch,cur,reserve,closed,wsess,tq,dies,injs,kf,idAtClose,gone>>
 \* SessionManager.Close: cancel, wait for the watchers, close sm.pools (not the reserve pools)
 SMClose == /\ Quiet /\ AllowClose /\ closed = "no" /\ closed' = "closing"
-           /\ UNCHANGED <<sess,nextId,s2c,c2s,lstate,lepoch,ack,hrCalls,oldUp,newUp,mstate,mepoch,cur,reserve,wpc,wsess,tq,dies,injs,kf,idAtClose>>
+           /\ UNCHANGED <<sess,nextId,s2c,c2s,lstate,lepoch,ack,hrCalls,oldUp,newUp,mstate,mepoch,cur,reserve,wpc,wsess,tq,dies,injs,kf,idAtClose,gone>>
 SMCloseFin == /\ CloseFinEn /\ closed' = "closed"
               /\ sess' = Kill({cur[p] : p \in Pools})
               /\ idAtClose' = nextId
-              /\ UNCHANGED <<nextId,s2c,c2s,lstate,lepoch,ack,hrCalls,oldUp,newUp,mstate,mepoch,cur,reserve,wpc,wsess,tq,dies,injs,kf>>
+              /\ UNCHANGED <<nextId,s2c,c2s,lstate,lepoch,ack,hrCalls,oldUp,newUp,mstate,mepoch,cur,reserve,wpc,wsess,tq,dies,injs,kf,gone>>
 
 \* ghost: the watcher of p waits on a live session that is no longer the pool's session while the pool's session is dead
 StaleWatch(p) == wpc[p] = "watch" /\ wsess[p] # cur[p] /\ sess[wsess[p]].alive /\ ~sess[cur[p]].alive /\ closed = "no"
 
-Next == \/ NewServerStarts \/ OldServerExits
+Next == \/ NewServerStarts \/ OldServerExits \/ NewServerExits
         \/ \E e \in Epochs : LHotRestart(e)
-        \/ \E i \in SessIds : LAck(i) \/ MOnHR(i) \/ SessDies(i)
+        \/ \E i \in SessIds : LAck(i) \/ MOnHR(i) \/ SessDies(i) \/ PeerGone(i) \/ ServerNotices(i)
         \/ \E i \in SessIds, e \in Epochs : InjectHR(i, e) \/ InjectAck(i, e)
         \/ LCheckTick \/ LTimeout \/ MCheckDone \/ MTimeout
-        \/ \E p \in Pools : WPick(p) \/ WLost(p) \/ WRebuild(p) \/ WExit(p)
+        \/ \E p \in Pools : WPick(p) \/ WLost(p) \/ WRebuild(p) \/ WRetry(p) \/ WExit(p)
         \/ SMClose \/ SMCloseFin
-Fair == /\ WF_vars(LCheckTick) /\ WF_vars(LTimeout) /\ WF_vars(MCheckDone) /\ WF_vars(MTimeout)
+Fair == /\ \A i \in SessIds : WF_vars(ServerNotices(i))
+        /\ WF_vars(LCheckTick) /\ WF_vars(LTimeout) /\ WF_vars(MCheckDone) /\ WF_vars(MTimeout)
         /\ \A p \in Pools : WF_vars(WPick(p)) /\ WF_vars(WLost(p)) /\ WF_vars(WRebuild(p))
 Spec == Init /\ [][Next]_vars /\ Fair
 
@@ -228,7 +265,7 @@ NotPruned == (kf \cap Prune = {}) /\ ("stale-watch" \in Prune => ~StaleNow)
 Bounded == nextId <= MaxSess + 1
 
 ----------------------------------------------------------------------------
-TypeOK == /\ ack \in -MaxSess..MaxSess /\ lstate \in {"def","hot","done"} /\ mstate \in {"def","hot"}
+TypeOK == /\ ack \in -MaxSess..MaxSess /\ lstate \in {"def","hot","done","stuck"} /\ mstate \in {"def","hot"}
           /\ \A p \in Pools : cur[p] \in 1..(nextId-1) /\ reserve[p] \in 0..(nextId-1) /\ wsess[p] \in 1..(nextId-1)
           /\ Len(tq) <= 2 /\ ("L" \in {tq[k] : k \in 1..Len(tq)} <=> lstate = "hot") /\ ("M" \in {tq[k] : k \in 1..Len(tq)} <=> mstate = "hot")
 \* C16 ack bookkeeping: the counter is the number of notified sessions that have not acknowledged
@@ -242,7 +279,7 @@ CompletedMeansSwapped == MDoneEn => \A p \in Pools : sess[cur[p]].epoch = mepoch
 \* old sessions stay usable until the old server lets go: a reserve session dies only by the old server's exit, by
 \* the manager's own time-out / next restart, or by an injected loss -- in the spec by construction; checked on the code.
 \* GetStream: the session behind each pool is live, or a watcher is on its way to replace it
-Healing(p) == \/ closed # "no" \/ wpc[p] \in {"sleep", "pick"}
+Healing(p) == \/ closed # "no" \/ wpc[p] \in {"sleep", "retry", "pick"}
               \/ (wpc[p] = "watch" /\ (wsess[p] = cur[p] \/ ~sess[wsess[p]].alive))
 GetStreamWorks == \A p \in Pools : sess[cur[p]].alive \/ Healing(p)
 \* no session is created that no pool refers to (a rebuilt session stored into a dropped pool object)
@@ -263,7 +300,7 @@ StaleAckNoEffect == [][\A i \in SessIds : (c2s[i] # <<>> /\ c2s' = [c2s EXCEPT !
 StaleHRNoEffect == [][\A i \in SessIds : (s2c[i] # <<>> /\ s2c' = [s2c EXCEPT ![i] = Tail(@)] /\ mstate = "hot" /\ Head(s2c[i]) # mepoch)
                           => UNCHANGED <<mstate,mepoch,cur,reserve,nextId,sess>>]_vars
 \* liveness (fairness of ticks, time-outs and watcher steps)
-ListenerLeaves == (lstate = "hot") ~> (lstate # "hot")
+ListenerLeaves == (lstate \in {"hot", "stuck"}) ~> (lstate \notin {"hot", "stuck"})
 ManagerLeaves == (mstate = "hot") ~> (mstate # "hot")
 Heals == \A p \in Pools : (~sess[cur[p]].alive /\ closed = "no") ~> (sess[cur[p]].alive \/ Connect = "none" \/ nextId > MaxSess \/ closed # "no")
 =============================================================================
